@@ -26,6 +26,11 @@ def run(ck):
         if i % 3 == 0:            # equal plaintext chunks: chunk 0 == chunk 1
             plain = plain[:CH] + plain[:CH] + plain[2 * CH:]
         cases.append(EncCase(len(plain), cm, i % 3, T, rnd_bytes(r, 16), rnd_seed(r), plain, "equal-chunks" if i % 3 == 0 else "random-chunks"))
+    # seeds longer than any 8- or 16-bit length: every byte up to the terminating NUL must count
+    for j, sl in enumerate([255, 256, 65535, 65536, 65539] + ([100000, 131072, 200001] if big else [])):
+        plain = rnd_bytes(r, 2 * CH - 3)
+        seed = bytes(r.randrange(1, 256) for _ in range(sl))
+        cases.append(EncCase(len(plain), [2, 1, 3, 4][j % 4], j % 3, [2, 4][j % 2], rnd_bytes(r, 16), seed, plain, "long-seed"))
     lines = ["e%d %s" % (i, c.line()) for i, c in enumerate(cases)]
     # same parameters, different seed
     l2 = []
